@@ -4,6 +4,7 @@ import GB.C15.ProofsExtra
 import GB.C15.ProofsOnce
 import GB.C15.Agg
 import GB.C15.ProofsTimed
+import GB.C15.ProofsFair
 import GB.Generated.Facts
 /-
   C15 — description updates are delivered exactly when the target's contract changes.
@@ -849,3 +850,64 @@ example :
          .change 9, .tick, .tick, .l .timer, .l .pollStart, .l (.pollEnd true)]).map
       (fun t => (t.delivered, t.now, t.deadline, t.w.polls))) = some (some 9, 5, 7, 3) ∧
     ((GB.LTS.run tstep (T.init false 2 5) [.l .pollStart, .l (.pollEnd false)]).isNone = true) := by decide
+
+/-- **`ResolveNow` liveness from an explicit fairness predicate** (also with `PollManually`). On every infinite run of
+    the wake-up protocol from the initial state in which `Close` is never called and the non-environment steps are
+    treated weakly fairly (`FairProtocol`: again and again a step of the poller / the channel close owed by a
+    once-winner is taken, or none is enabled): whenever a `ResolveNow` call has completed and is not yet served, a
+    poll starts later on, and from then on the call is served. (`C15_resolve_now_served_within` is the finite core:
+    8 such steps suffice and one is always enabled — fairness supplies them.) -/
+theorem C15_resolve_now_eventually_served (manual : Bool) (st : Nat → W) (lb : Nat → Lbl) (hrun : IsRunW st lb)
+    (h0 : st 0 = W.init manual) (hfair : FairProtocol st lb) (hnc : NoCloseW lb)
+    (k i : Nat) (hf : ((st k).callers i).pc = .finished) (hns : ((st k).callers i).served = false) :
+    ∃ j, k ≤ j ∧ lb j = .pollStart ∧ ∀ j', j < j' → ((st j').callers i).served = true := by
+  have hreach : ∀ n, GB.LTS.Reachable step (W.init manual) (st n) := by
+    intro n
+    have := run_seg st lb hrun n 0
+    rw [h0] at this
+    have h := GB.LTS.run_reachable step (W.init manual) (W.init manual) _ GB.LTS.Reachable.init this
+    simpa using h
+  -- Close is never called: the closer stays idle
+  have hidle : ∀ n, (st n).closer = .idle := by
+    intro n
+    induction n with
+    | zero => rw [h0]; rfl
+    | succ n ih => exact step_closer_idle _ _ _ (hrun n) ih (hnc n)
+  have core := fun m => C15_resolve_now_served_within manual (st k) (hreach k) i hf hns (hidle k)
+    (seg lb k m) (st (k + m)) (run_seg st lb hrun m k) (seg_noclose lb hnc m k)
+  -- fairness supplies as many non-environment steps as wanted, unless a poll start comes first
+  have count : ∀ n, ∃ m, Lbl.pollStart ∈ seg lb k m ∨ n ≤ ((seg lb k m).filter isProtocol).length := by
+    intro n
+    induction n with
+    | zero => exact ⟨0, Or.inr (Nat.zero_le _)⟩
+    | succ n ih =>
+      obtain ⟨m, hm⟩ := ih
+      rcases hm with hm | hm
+      · exact ⟨m, Or.inl hm⟩
+      · obtain ⟨k', hk', hfk⟩ := hfair (k + m)
+        obtain ⟨d, rfl⟩ := Nat.le.dest hk'
+        by_cases hps : Lbl.pollStart ∈ seg lb k (m + d)
+        · exact ⟨m + d, Or.inl hps⟩
+        · obtain ⟨l, t, hpl, hst⟩ := (core (m + d)).2.2 hps
+          have hen : ProtocolEnabled (st (k + m + d)) := by
+            rw [Nat.add_assoc]; exact ⟨l, t, hpl, hst⟩
+          have hprot : isProtocol (lb (k + m + d)) = true := by
+            rcases hfk with h | h
+            · exact h
+            · exact absurd hen h
+          refine ⟨m + d + 1, Or.inr ?_⟩
+          rw [seg_append lb (m + d) 1 k, seg_append lb m d k]
+          simp only [seg, List.filter_append, List.length_append, List.filter_cons, List.filter_nil]
+          rw [← Nat.add_assoc] 
+          simp only [hprot, if_true, List.length_cons, List.length_nil]
+          omega
+  obtain ⟨m, hm⟩ := count 8
+  have hin : Lbl.pollStart ∈ seg lb k m := by
+    rcases hm with h | h
+    · exact h
+    · exact (core m).1 h
+  obtain ⟨j, hj1, hj2, hj3⟩ := mem_seg lb _ m k hin
+  refine ⟨j, hj1, hj3, fun j' hj' => ?_⟩
+  obtain ⟨m', rfl⟩ := Nat.le.dest (show k ≤ j' by omega)
+  have hmem : Lbl.pollStart ∈ seg lb k m' := hj3 ▸ seg_mem lb m' k j hj1 (by omega)
+  exact (core m').2.1 hmem
